@@ -1,6 +1,199 @@
 package main
 
-// runFreeHistory: placeholder, replaced below.
+import (
+	"context"
+	"fmt"
+	"path/filepath"
+	"strings"
+	"sync"
+	"time"
+
+	"github.com/lindb/lindb/models"
+	"github.com/lindb/lindb/replica"
+	"github.com/lindb/lindb/tsdb"
+	"github.com/lindb/lindb/verif/internal/imgfs"
+	"github.com/lindb/lindb/verif/internal/node"
+	"github.com/lindb/lindb/verif/internal/seam"
+)
+
+// runFreeHistory: the same node, but nothing is stepped: every partition runs its real replica loop (StartReplica),
+// 3 writers append a backlog of entries, a flusher runs whole flush jobs through the real doFlush and another
+// goroutine drives log Sync/GC, all at the same time. About every 4th file-system operation / page store is followed by
+// an image (taken under the world lock: a state the directory really had while everything was running).
+// The ledger records logical times around WriteLog, the replicator's WriteRows/CommitSequence and the flush jobs; the
+// oracle is the one of the stepped histories.
 func runFreeHistory(idx int, dir, tier string, seed, t0 int64) *ledger {
-	return runHistory(idx, dir, tier, seed, t0)
+	r := histRand(idx, seed)
+	shards := 1 + idx%2
+	families := []int64{t0, t0 - hourMs}
+	p := &plan{Shards: shards, Families: families}
+	L := &ledger{Hist: idx, Seed: seed, Tier: tier, Mode: "free", T0: t0, Shards: shards, Families: families, Counters: map[string]int{}}
+	L.Config = fmt.Sprintf("free shards=%d families=%d", shards, len(families))
+	nodeDir := filepath.Join(dir, "node")
+	world := imgfs.NewWorld(nodeDir, filepath.Join(dir, "img"))
+	world.SetSkip(skipBuffers)
+	d := &driver{dir: dir, L: L, plan: p, world: world, parts: map[partKey]*partState{}, bySeq: map[partKey]map[int64]int{}, arrCh: make(chan func(), 4)}
+	ic := &hookIC{world: world, before: d.before}
+	seam.NoFsync = true
+	seam.InstallKV(ic, nil)
+	seam.InstallIndexSequence(ic)
+	seam.InstallQueuePages(ic, nil)
+	n, err := node.Open(node.Options{Dir: nodeDir, Database: dbName, ShardIDs: shardIDs(shards)})
+	if err != nil {
+		d.problem("open node: %v", err)
+		return L
+	}
+	d.n = n
+	world.Enable(true)
+	world.Snapshot("engine-opened")
+	d.ctx, d.stop = context.WithCancel(context.Background())
+	installPartitionFn(func(ps *partState) {
+		d.mu.Lock()
+		d.parts[ps.key] = ps
+		d.mu.Unlock()
+		ps.fam.afterWriteRows = d.afterWriteRows
+		ps.fam.onWriteRows = d.onWriteRows
+		ps.fam.onCommit = d.onCommit
+		ps.fam.onAck = d.onAck
+	}, true)
+	d.mgr = replica.NewWriteAheadLogManager(d.ctx, walConfig(), selfNode, n.Engine, nil, nil)
+	d.wal = d.mgr.GetOrCreateLog(dbName)
+	var fams []tsdb.DataFamily
+	for s := 0; s < shards; s++ {
+		for _, fam := range families {
+			key := partKey{Shard: s, Family: fam}
+			L.Parts = append(L.Parts, key)
+			if _, err := d.wal.GetOrCreatePartition(models.ShardID(s), fam, selfNode); err != nil {
+				d.problem("create partition %s: %v", key, err)
+				return L
+			}
+			ps := d.parts[key]
+			if err := bindReplicator(ps); err != nil {
+				d.problem("build replica %s: %v", key, err)
+				return L
+			}
+			fams = append(fams, ps.fam.DataFamily)
+		}
+	}
+	g := newGen(r, shards, families)
+	g.maxMet = 3
+	drained := func(limit time.Duration) bool { // pacing only
+		deadline := time.Now().Add(limit)
+		for time.Now().Before(deadline) {
+			busy := false
+			for _, key := range L.Parts {
+				if d.parts[key].rep.Pending() > 0 {
+					busy = true
+				}
+			}
+			if !busy {
+				return true
+			}
+			time.Sleep(2 * time.Millisecond)
+		}
+		return false
+	}
+	cycle := func(c int) {
+		d.realCycle(&planStep{Kind: "cycle", Cycle: c})
+	}
+	// phase 1: some series whose names become durable
+	for i := 0; i < 3; i++ {
+		a := g.appendAction(4)
+		d.appendRows(a.Rows, 1, false)
+	}
+	drained(20 * time.Second)
+	time.Sleep(5 * time.Millisecond)
+	cycle(0)
+	ic.sample = 4
+	rounds := 2
+	if tier == "thorough" {
+		rounds = 3
+	}
+	for round := 1; round <= rounds; round++ {
+		g.cycle = round
+		// backlog: entries with many rows, half of them points of old series
+		var batches [][]rowRec
+		nb := 10 + r.Intn(6)
+		for b := 0; b < nb; b++ {
+			fam := g.fam()
+			var rows []rowRec
+			nr := 6 + r.Intn(6)
+			for i := 0; i < nr; i++ {
+				kind := "series"
+				if r.Intn(2) == 0 {
+					kind = "point"
+				}
+				rows = append(rows, g.row(kind, fam, nil))
+			}
+			batches = append(batches, rows)
+		}
+		flushDelay := time.Duration(r.Intn(30)) * time.Millisecond
+		var wg sync.WaitGroup
+		var bmu sync.Mutex
+		next := 0
+		for w := 0; w < 3; w++ {
+			wg.Add(1)
+			go func() {
+				defer wg.Done()
+				for {
+					bmu.Lock()
+					if next >= len(batches) {
+						bmu.Unlock()
+						return
+					}
+					rows := batches[next]
+					next++
+					bmu.Unlock()
+					d.appendRows(rows, 1, false)
+				}
+			}()
+		}
+		wg.Add(1)
+		go func() {
+			defer wg.Done()
+			time.Sleep(flushDelay)
+			cycle(round)
+			if round%2 == 1 {
+				cycle(round) // a second job right behind
+			}
+		}()
+		wg.Add(1)
+		go func() {
+			defer wg.Done()
+			for i := 0; i < 3; i++ {
+				time.Sleep(flushDelay / 2)
+				for _, key := range L.Parts {
+					d.parts[key].inner.IsExpire()
+				}
+				d.count("log_sync_gc", 1)
+			}
+		}()
+		wg.Wait()
+		if round < rounds {
+			drained(20 * time.Second)
+		}
+	}
+	world.Snapshot("final")
+	world.Enable(false)
+	d.mu.Lock()
+	for _, img := range world.Images() {
+		L.Images = append(L.Images, imageRec{Index: img.Index, Label: strings.ReplaceAll(img.Label, nodeDir, "<node>"), Dir: img.Dir, Hash: img.Hash})
+	}
+	L.Counters["images"] = len(L.Images)
+	L.Counters["seam_ops"] = int(world.Ops())
+	overl := 0
+	v := &verifier{L: L}
+	for i := range L.Entries {
+		if v.overlapsDataFlush(&L.Entries[i]) {
+			overl++
+		}
+	}
+	L.Counters["free.entries_applied_while_a_data_flush_of_their_family_ran"] = overl
+	// a private copy: the replica loops may still be applying entries
+	cp := *L
+	cp.Entries = append([]entryRec(nil), L.Entries...)
+	cp.Flushes = append([]flushRec(nil), L.Flushes...)
+	cp.Acks = append([]ackRec(nil), L.Acks...)
+	d.mu.Unlock()
+	return &cp
 }
